@@ -10,11 +10,14 @@ open EEnv
 
 /-! ## Fee and gas bounds -/
 
-/-- whenever the fee per gas is below `2·10¹⁶` (0.02 iDNA per gas unit) the gas limit is exactly what the fee buys -/
-theorem gasLimit_eq_floor (t : TxIn) (hf : 0 < t.fpg) (hsmall : t.fpg < 2 * 10 ^ 16) (hfee : t.txFee ≤ t.maxFee) :
+/-- the gas limit is exactly what the fee left after the transaction fee buys -/
+theorem gasLimit_eq_floor (t : TxIn) (hf : 0 < t.fpg) (hfee : t.txFee ≤ t.maxFee) :
     gasLimit t = ((t.maxFee - t.txFee) / t.fpg : Nat) := by
   unfold gasLimit
-  rw [if_neg (by omega), if_pos hfee, decDivTrunc_eq_div _ _ hf hsmall]
+  rw [if_neg (by omega)]
+  have h1 : (t.maxFee : Int) - (t.txFee : Int) = ((t.maxFee - t.txFee : Nat) : Int) := by omega
+  rw [h1]
+  exact (Int.ofNat_tdiv _ _).symm
 
 theorem gasUsed_le_limit_embedded (used : Nat) (limit : Int) (h : 0 ≤ limit) : (usedGasE used limit : Int) ≤ limit := by
   unfold usedGasE; rw [if_pos h]
@@ -27,10 +30,10 @@ theorem gasUsed_le_limit_wasm (raw : Nat) (limit : Int) (h : 0 ≤ limit) : (use
     apply Nat.div_le_of_le_mul; have := Nat.min_le_right raw (limit.toNat * 100); omega
   omega
 
-/-- the receipt's gas never exceeds the gas the declared maximum fee buys -/
-theorem gasUsed_le_limit (t : TxIn) (hf : 0 < t.fpg) (hsmall : t.fpg < 2 * 10 ^ 16) (hfee : t.txFee ≤ t.maxFee) (used raw : Nat) :
+/-- **gasUsed_le_limit**: the receipt's gas never exceeds the gas the declared maximum fee buys (both engines) -/
+theorem gasUsed_le_limit (t : TxIn) (hf : 0 < t.fpg) (hfee : t.txFee ≤ t.maxFee) (used raw : Nat) :
     usedGasE used (gasLimit t) ≤ (t.maxFee - t.txFee) / t.fpg ∧ usedGasW raw (gasLimit t) ≤ (t.maxFee - t.txFee) / t.fpg := by
-  have hl := gasLimit_eq_floor t hf hsmall hfee
+  have hl := gasLimit_eq_floor t hf hfee
   have h0 : (0 : Int) ≤ gasLimit t := by rw [hl]; exact Int.natCast_nonneg _
   have h1 := gasUsed_le_limit_embedded used _ h0
   have h2 := gasUsed_le_limit_wasm raw _ h0
@@ -38,11 +41,11 @@ theorem gasUsed_le_limit (t : TxIn) (hf : 0 < t.fpg) (hsmall : t.fpg < 2 * 10 ^ 
   rw [hl]
   exact ⟨by exact_mod_cast h1, by exact_mod_cast h2⟩
 
-/-- `fee_le_maxFee`: tx fee plus gas cost stays within the declared maximum (both engines) -/
-theorem fee_le_maxFee (t : TxIn) (hf : 0 < t.fpg) (hsmall : t.fpg < 2 * 10 ^ 16) (hfee : t.txFee ≤ t.maxFee) (used raw : Nat) :
+/-- **fee_le_maxFee**: transaction fee plus gas cost stays within the declared maximum (both engines) -/
+theorem fee_le_maxFee (t : TxIn) (hf : 0 < t.fpg) (hfee : t.txFee ≤ t.maxFee) (used raw : Nat) :
     t.txFee + gasCost t.fpg (usedGasE used (gasLimit t)) ≤ t.maxFee ∧
     t.txFee + gasCost t.fpg (usedGasW raw (gasLimit t)) ≤ t.maxFee := by
-  obtain ⟨h1, h2⟩ := gasUsed_le_limit t hf hsmall hfee used raw
+  obtain ⟨h1, h2⟩ := gasUsed_le_limit t hf hfee used raw
   have hd := Nat.mul_div_le (t.maxFee - t.txFee) t.fpg
   unfold gasCost
   constructor
@@ -56,14 +59,24 @@ theorem fee_le_maxFee_fpg_zero (t : TxIn) (hf : t.fpg = 0) (hfee : t.txFee ≤ t
   refine ⟨this, ?_⟩
   rw [this]; unfold gasCost usedGasE; simp [hf]; exact hfee
 
-/-- the same statement without the bound on the fee per gas -/
-def fee_le_maxFee_statement : Prop :=
-  ∀ (t : TxIn) (used : Nat), 0 < t.fpg → t.txFee ≤ t.maxFee → t.txFee + gasCost t.fpg (usedGasE used (gasLimit t)) ≤ t.maxFee
+/-! ### The limit as found (before fix 8023026d): flagged variant -/
 
-/-- … is false for the code as found: `getGasLimit` divides with `decimal.Div` (16 fractional digits, half-up) and
-truncates, so from `2·10¹⁶` per gas unit on a remainder within `fpg / (2·10¹⁶)` of a full unit is rounded UP to one more
-gas unit than the fee buys (here: maxFee − txFee = 2·10¹⁶ − 1 buys 0 units, 1 is granted and charged). -/
-theorem fee_le_maxFee_unbounded_fpg_counterexample : ¬ fee_le_maxFee_statement := by
+/-- below `2·10¹⁶` per gas unit the decimal division of the code as found agreed with the floor -/
+theorem gasLimitAsFound_eq (t : TxIn) (hf : 0 < t.fpg) (hsmall : t.fpg < 2 * 10 ^ 16) (hfee : t.txFee ≤ t.maxFee) :
+    gasLimitAsFound t = gasLimit t := by
+  rw [gasLimit_eq_floor t hf hfee]
+  unfold gasLimitAsFound
+  rw [if_neg (by omega), if_pos hfee, decDivTrunc_eq_div _ _ hf hsmall]
+
+/-- the fee bound for the limit as found -/
+def fee_le_maxFee_asFound_statement : Prop :=
+  ∀ (t : TxIn) (used : Nat), 0 < t.fpg → t.txFee ≤ t.maxFee → t.txFee + gasCost t.fpg (usedGasE used (gasLimitAsFound t)) ≤ t.maxFee
+
+/-- … was false: `decimal.Div` (16 fractional digits, half-up) followed by truncation rounds a remainder within
+`fpg / (2·10¹⁶)` of a full gas unit UP, so from `2·10¹⁶` per gas unit on one more unit was granted and charged than the
+fee buys (here: maxFee − txFee = 2·10¹⁶ − 1 buys 0 units, 1 was granted).  Reproduced on a real chain (congest mode of
+the harness) and fixed in /repo (8023026d). -/
+theorem fee_le_maxFee_asFound_counterexample : ¬ fee_le_maxFee_asFound_statement := by
   intro h
   have := h { kind := .call, wasm := false, snd := 1, c := 2, amt := 0, tips := 0, maxFee := 2 * 10 ^ 16 - 1, txFee := 0, fpg := 2 * 10 ^ 16 } 1
     (by norm_num) (by norm_num)
@@ -305,6 +318,18 @@ theorem value_conserved (dom : List Addr) (hn : dom.Nodup) (t : TxIn) (b : Base)
       have : ef = eb := rfl
       rw [this] at hsucc
       rcases hv with hv | hv <;> simp [hv] at hsucc
+
+
+/-- **no coins from nowhere** (embedded; corollary of `value_conserved`): the burnt amount a receipt stands for is
+non-negative, so balances + stakes never grow by a contract transaction -/
+theorem burnt_nonneg (t : TxIn) (b : Base) (h : b.NonNeg) (hafford : (t.amt : Int) ≤ b.bal t.snd)
+    (trace : List ECall) (verdict : Bool) : 0 ≤ (applyE t b trace verdict).2.burnt := by
+  unfold applyE settle
+  simp only
+  split
+  · have hpp := prePay_nonneg t b h hafford
+    exact run_burnt_mono { base := prePay t b, limit := gasLimit t } trace ⟨hpp.1, hpp.2⟩
+  · exact Int.le_refl _
 
 
 open WEnv
